@@ -488,6 +488,19 @@ for oid, fn, ent, extra, defs in (("MergeInPlace.rev", "MergeInPlace", "h_C20_me
       assumptions=["memcpy/memmove modelled as element-wise copies of whole events (CBMC's own models run out of memory on a symbolic length); the native replay uses libc's"],
       tiers=["thorough"] if defs else ["quick", "thorough"],
       mem_gb=28, solver=["minisat", "kissat", "cadical"], timeout={"quick": 900, "thorough": 2400}, native_srcs=["instant.c"])
+O("C14.echsx", ["C14", "C12"], "h_C14x.c", "h_C14_echsx",
+  "echsx(): with a DURATION limit the alarm is armed, kill handler installed, before the job starts, with the limit rounded up to whole seconds; with a DUE time the request is refused when now >= due (or the clock cannot be read) and otherwise armed with due - now; a negative limit, a missing command and --no-run never start the job; for every limit up to 2^32-1 s, every clock value and every failure of the credential / signal calls",
+  ["echsx", "set_timeout", "unblock_sig", "block_sigs", "unblock_sigs"], dfcc=True,
+  replace=["prep_task", "run_task", "mail_task", "jlog_task", "free_task"],
+  replace_status={"prep_task": "recording contract (not discharged: pipes, files)", "run_task": "recording contract (not discharged: spawn, event loop)",
+                  "mail_task": "recording contract (not discharged)", "jlog_task": "recording contract (not discharged)", "free_task": "recording contract (not discharged)"},
+  solver=["minisat", "kissat", "cadical"], timeout={"quick": 900, "thorough": 1800}, replay=False, replay_note="system calls stubbed, phases replaced by contracts",
+  assumptions=["alarm/time/sigaction/sigprocmask/kill/setuid/setgid/getpw*/umask/snprintf replaced by fixed-arity stubs (every failure return allowed)",
+               "echs_instant_to_epoch replaced by a symbolic value (discharged separately: C08.epoch.to)",
+               "logging macros pre-empted (variadic)", "main() of echsx.c renamed, never called"])
+O("C14.timeo_cb", ["C14"], "h_C14x.c", "h_C14_timeo_cb",
+  "timeo_cb (the SIGALRM handler echsx installs): sends SIGXCPU to the running job, exactly once",
+  ["timeo_cb", "block_sigs"], solver=["minisat", "kissat"], timeout={"quick": 600, "thorough": 1800}, replay=False, replay_note="system calls stubbed")
 O("C09.make_enum", ["C09"], "h_C09e.c", "h_C09_make_enum",
   "make_enum (the time-of-day arrays every filler indexes): for every BYHOUR within 0..23, BYMINUTE within 0..59, BYSECOND within 0..60 and every DTSTART time it writes inside its three arrays, yields 1..24 / 1..60 / 1..61 entries, each a member of its BYxxx set (DTSTART's value when the set is empty), strictly increasing; the loops terminate",
   ["make_enum"], dfcc=True, loop_contracts=True, replace=["bui31_next", "bui63_next"],
